@@ -467,6 +467,240 @@ fn memcpy(r: &mut Rng, out: &mut Sink) {
     }
 }
 
+// ------------------------------------------------------------------------------------------------
+// branch nodes: the real builder (`new` / `push` / `push_chunk`) and `get_key` on caller-supplied pages
+
+use nomt::verif_api::branch_node as realnode;
+
+const PAGE: usize = 4096;
+
+#[derive(Clone)]
+struct Item {
+    key: Key,
+    sep_len: usize,
+    pn: u32,
+}
+
+fn steps_str(steps: &[realnode::Step]) -> String {
+    if steps.is_empty() {
+        return "-".into();
+    }
+    steps
+        .iter()
+        .map(|s| match s {
+            realnode::Step::Push(k, l, pn) => format!("P:{}:{}:{}", hex(k), l, pn),
+            realnode::Step::Chunk { from, to, updated } => format!(
+                "C:{}:{}:{}",
+                from,
+                to,
+                if updated.is_empty() { "-".to_string() } else { updated.iter().map(|(i, pn)| format!("{i}={pn}")).collect::<Vec<_>>().join(",") }
+            ),
+        })
+        .collect::<Vec<_>>()
+        .join(";")
+}
+
+fn common_prefix(items: &[Item]) -> usize {
+    let mut pl = 256;
+    for it in items {
+        pl = pl.min(naive_prefix_len(&items[0].key, &it.key));
+    }
+    pl
+}
+
+/// sorted distinct separator keys: `shared` common bits, then a random tail cut to a random separator length
+fn gen_items(r: &mut Rng, n: usize, shared: usize) -> Vec<Item> {
+    let base = r.bytes32();
+    let mut keys: Vec<Key> = Vec::new();
+    let mut guard = 0;
+    while keys.len() < n && guard < 10 * n + 20 {
+        guard += 1;
+        let mut k = with_prefix(r, &base, shared);
+        // separators are short: cut after a few more bits (sometimes inside the shared prefix: trailing zero compression)
+        let cut = match r.below(6) {
+            0 => 256,
+            1 => shared.saturating_sub(r.below(9)),
+            2 => (shared + r.below(4)).min(256),
+            _ => (shared + 1 + r.below(70)).min(256),
+        };
+        k = prefix_padded(&k, cut);
+        if !keys.contains(&k) {
+            keys.push(k);
+        }
+    }
+    keys.sort();
+    keys.into_iter().map(|k| Item { key: k, sep_len: naive_separator_len(&k), pn: r.next() as u32 }).collect()
+}
+
+fn node_line(initial: &[u8], n: usize, pc: usize, pl: usize, base: Option<&[u8]>, steps: &[realnode::Step]) -> String {
+    format!("bn {} {} {} {} {} {}", hx(initial), n, pc, pl, base.map(|b| hx(b)).unwrap_or("-".into()), steps_str(steps))
+}
+
+fn build_real(initial: &[u8], n: usize, pc: usize, pl: usize, base: Option<&[u8]>, steps: &[realnode::Step]) -> Option<Vec<u8>> {
+    catch_unwind(AssertUnwindSafe(|| realnode::build(initial, n, pc, pl, base, steps))).ok()
+}
+
+fn check_keys(out: &mut Sink, what: &str, page: &[u8], expected: &[Item], line: &str) {
+    for (i, it) in expected.iter().enumerate() {
+        let got = catch_unwind(AssertUnwindSafe(|| realnode::get_key(page, i)));
+        let gl = format!("gk {} {}", hx(page), i);
+        match got {
+            Err(_) => {
+                out.line(gl, "panic".into());
+                out.fail(format!("C16 get_key({i}) panicked on a {what}: {}", &line[..line.len().min(200)]));
+            }
+            Ok(k) => {
+                // the protocol line only for a sample of indices (pages are 8 KiB of hex each)
+                if i == 0 || i + 1 == expected.len() || i % 7 == 3 {
+                    out.line(gl, hex(&k));
+                }
+                if k != it.key {
+                    out.fail(format!("C16 get_key({i}) of a {what} returned {} instead of the key pushed {}: {}", hex(&k), hex(&it.key), &line[..line.len().min(200)]));
+                }
+                let off = PAGE - (expected.len() - i) * 4;
+                let pn = u32::from_le_bytes(page[off..off + 4].try_into().unwrap());
+                if pn != it.pn {
+                    out.fail(format!("C16 node pointer {i} of a {what} is {pn} instead of {}: {}", it.pn, &line[..line.len().min(200)]));
+                }
+            }
+        }
+    }
+}
+
+fn nodes(r: &mut Rng, out: &mut Sink) {
+    // ---- a base node built by `push`
+    let shared = edge_len(r, 250);
+    let nb = if r.chance(1, 8) { r.range(40, 90) } else { r.range(1, 24) };
+    let mut items = gen_items(r, nb, shared);
+    if items.is_empty() {
+        return;
+    }
+    // some trailing keys outside the shared prefix (uncompressed tail)
+    let tail = if r.chance(1, 3) { r.range(1, 4) } else { 0 };
+    let sh_out = r.below(8);
+    let mut outsiders = gen_items(r, tail, sh_out);
+    outsiders.retain(|o| o.key > items.last().unwrap().key);
+    let pc_base = items.len();
+    items.extend(outsiders);
+    let n_base = items.len();
+    let mut pl_base = common_prefix(&items[..pc_base]);
+    if r.chance(1, 4) {
+        pl_base = pl_base.saturating_sub(r.below(20));
+    }
+    let initial = fill(r, PAGE);
+    let base_steps: Vec<realnode::Step> = items.iter().map(|it| realnode::Step::Push(it.key, it.sep_len, it.pn)).collect();
+    let line = node_line(&initial, n_base, pc_base, pl_base, None, &base_steps);
+    out.nontrivial(&line);
+    out.count("bn_push");
+    let Some(base_page) = build_real(&initial, n_base, pc_base, pl_base, None, &base_steps) else {
+        out.line(line.clone(), "panic".into());
+        out.fail(format!("C16 BranchNodeBuilder::push panicked on a well-formed node: {}", &line[..200.min(line.len())]));
+        return;
+    };
+    out.line(line.clone(), hx(&base_page));
+    check_keys(out, "pushed node", &base_page, &items, &line);
+
+    // ---- a new node taking a chunk of the base's compressed separators, pushes before / after
+    for _ in 0..2 {
+        let from = r.below(pc_base);
+        let to = r.range(from + 1, pc_base);
+        let mut expected: Vec<Item> = Vec::new();
+        let mut steps: Vec<realnode::Step> = Vec::new();
+        // pushes before the chunk: keys below the chunk's first key sharing some prefix with it
+        let n_before = if r.chance(1, 2) { 0 } else { r.range(1, 3) };
+        let share_new = match r.below(4) {
+            0 => pl_base,
+            1 => pl_base.saturating_sub(r.range(1, 70)),
+            2 => (pl_base + r.range(1, 70)).min(common_prefix(&items[from..to])),
+            _ => r.below(common_prefix(&items[from..to]) + 1),
+        };
+        let mut before: Vec<Item> = Vec::new();
+        for _ in 0..n_before {
+            let k = with_prefix(r, &items[from].key, share_new);
+            let cut = (share_new + 1 + r.below(40)).min(256);
+            let k = prefix_padded(&k, cut);
+            if k < items[from].key && !before.iter().any(|b: &Item| b.key == k) {
+                before.push(Item { key: k, sep_len: naive_separator_len(&k), pn: r.next() as u32 });
+            }
+        }
+        before.sort_by(|a, b| a.key.cmp(&b.key));
+        for b in &before {
+            steps.push(realnode::Step::Push(b.key, b.sep_len, b.pn));
+            expected.push(b.clone());
+        }
+        let mut updated: Vec<(usize, u32)> = Vec::new();
+        for i in 0..(to - from) {
+            let mut it = items[from + i].clone();
+            if r.chance(1, 5) {
+                it.pn = r.next() as u32;
+                updated.push((i, it.pn));
+            }
+            expected.push(it);
+        }
+        steps.push(realnode::Step::Chunk { from, to, updated });
+        // pushes after: uncompressed outsiders
+        let n_after = if r.chance(1, 2) { 0 } else { r.range(1, 3) };
+        let pc_new = expected.len();
+        let sh_after = r.below(8);
+        let mut after = gen_items(r, n_after, sh_after);
+        after.retain(|o| o.key > expected.last().unwrap().key);
+        for a in &after {
+            steps.push(realnode::Step::Push(a.key, a.sep_len, a.pn));
+            expected.push(a.clone());
+        }
+        let n_new = expected.len();
+        let full = common_prefix(&expected[..pc_new]);
+        let mut kind = "valid";
+        let pl_new = match r.below(10) {
+            0 => full.saturating_sub(r.range(1, 9)),
+            1 => full.saturating_sub(r.range(1, 130)),
+            2 if r.chance(1, 3) => {
+                kind = "prefix-too-long";
+                (full + r.range(1, 20)).min(300)
+            }
+            _ => full,
+        };
+        let (mut n_hdr, mut pc_hdr) = (n_new, pc_new);
+        if r.chance(1, 25) {
+            kind = "n-too-small";
+            n_hdr = n_new.saturating_sub(1);
+            pc_hdr = pc_hdr.min(n_hdr);
+        }
+        let initial = fill(r, PAGE);
+        let line = node_line(&initial, n_hdr, pc_hdr, pl_new, Some(&base_page), &steps);
+        out.nontrivial(&line);
+        out.count(&format!("bn_chunk_{kind}"));
+        if kind == "valid" {
+            let rel = if pl_new == pl_base { "same" } else if pl_new < pl_base { "shorter" } else { "longer" };
+            out.count(&format!("bn_chunk_prefix_{rel}"));
+        }
+        match build_real(&initial, n_hdr, pc_hdr, pl_new, Some(&base_page), &steps) {
+            None => {
+                out.line(line.clone(), "panic".into());
+                out.count("bn_panic");
+                if kind == "valid" {
+                    out.fail(format!("C16 BranchNodeBuilder::push_chunk panicked on a well-formed request: {}…", &line[line.len().saturating_sub(300)..]));
+                }
+            }
+            Some(page) => {
+                out.line(line.clone(), hx(&page));
+                if kind == "valid" {
+                    check_keys(out, "node built with push_chunk", &page, &expected, &line[line.len().saturating_sub(300)..]);
+                }
+            }
+        }
+    }
+}
+
+pub fn run_nodes(seed: u64, cases: usize, out: &mut Sink) {
+    let mut rng = Rng::new(seed ^ 0xB17E);
+    for case in 0..cases {
+        let mut r = rng.fork();
+        out.mark_case(format!("case {case}"));
+        nodes(&mut r, out);
+    }
+}
+
 pub fn run(seed: u64, cases: usize, out: &mut Sink) {
     let mut rng = Rng::new(seed ^ 0xB175);
     for case in 0..cases {
